@@ -1,7 +1,7 @@
 /-
   TamocV.Model.Release — hand transcription (DESIGN §2.2 b) of the release set-up of the plume models
 
-    * `dispersed_phases.initial_conditions`            (/repo/tamoc/dispersed_phases.py l.481-582)
+    * `dispersed_phases.initial_conditions`            (/repo/tamoc/dispersed_phases.py l.481-585)
       all three `q_type` conventions (0: one particle of the given diameter, 1: volume flux at
       standard conditions 0 °C / 1 bar, 2: mass flux), soluble and insoluble particles
     * `blowout.particles`                              (/repo/tamoc/blowout.py l.799-873)
@@ -124,6 +124,10 @@ def icNb0 (mDot rhoP de : α) : α :=
   let Q := mDot / rhoP
   Q / (pi * Num.npow de 3 / 6.0)
 
+/-- l.581: mass of one particle from its volume and density, `rho_p * (np.pi * de**3 / 6.)`
+    (equal to `m_dot / nb0`, but defined also when the flux, and hence `nb0`, is zero) -/
+def icMass (rhoP de : α) : α := rhoP * (pi * Num.npow de 3 / 6.0)
+
 /-- `dispersed_phases.initial_conditions(profile, z0, dbm_particle, yk, q, q_type, de, T0)`;
     `M = dbm_particle.M`, `soluble = dbm_particle.issoluble`, `amb = profile.get_values(z0, …)` -/
 def initialConditions (o : Oracle α) (M : List α) (soluble : Bool) (amb : Amb α) (yk : List α)
@@ -138,7 +142,7 @@ def initialConditions (o : Oracle α) (M : List α) (soluble : Bool) (amb : Amb 
   else
     let mDot := icMdot qType q rhoN
     let nb0 := icNb0 mDot rhoP de
-    let m0 := mf.map (mDot / nb0 * ·)
+    let m0 := mf.map (icMass rhoP de * ·)
     { m0 := m0, T0 := T0, nb0 := nb0, P := amb.P, Sa := amb.Sa, Ta := amb.Ta }
 
 /-- `nb0 * m0`: the mass flux of every component carried by this particle class -/
@@ -222,9 +226,11 @@ structure Entry where
 
 def nan : Float := 0.0 / 0.0
 
-/-- relative distance of two floats (0 when equal, also for equal infinities / both NaN is NOT equal) -/
+/-- relative distance of two floats (0 when equal, also for equal infinities; NaN is at distance 1e300 of everything) -/
 def relDist (a b : Float) : Float :=
-  if a == b then 0.0 else (a - b).abs / (if a.abs < b.abs then b.abs else a.abs)
+  if a == b then 0.0
+  else if a != a || b != b then 1.0e300      -- a NaN never matches (recorded calls of a root finder gone astray)
+  else (a - b).abs / (if a.abs < b.abs then b.abs else a.abs)
 
 /-- largest component-wise relative distance; `none` when the shapes differ -/
 def distL : List Float → List Float → Option Float
